@@ -10,6 +10,7 @@ TARGETS = ["theories/Properties/C01.vo"]
 PROPERTIES_FILE = "theories/Properties/C01.v"
 IMPL = "harness.props.c01_impl"
 TAGGED = True
+HARD_TIMEOUT = 400        # importer-path cases start a child interpreter
 SHARD = 400
 RULE = ("programs of the modelled fragment: every placement of 8 argument kinds (plain, traced, let, if, "
         "do, nested call) among 2-3 call arguments, those placed in 6 syntactic contexts, truthiness of every "
